@@ -411,7 +411,7 @@ def explore_op(prog, op, n_frames, abandon=True, parts=2):
 
 
 
-MUTATING = {"fs.rename": 1, "fs.copy": 1, "fs.write_file": 0, "fs.remove": 0, "fs.mkdir": 0, "fs.create": 0, "fs.write": 0}
+MUTATING = {"fs.rename": 1, "fs.copy": 1, "fs.write_file": 0, "fs.remove": 0, "fs.rmdir": 0, "fs.mkdir": 0, "fs.create": 0, "fs.write": 0}
 
 
 def is_tmp(key):
